@@ -37,8 +37,8 @@ def generate(T, tier):
             hs.append({"name": "c16::%s::one_%s" % (mod, inst), "group": "main", "tier": t,
                        "bounds": "%s: one entry on a concrete satellite id (%s), first/last recognised signal, every f32 bias bit pattern" % (num, inst)})
         hs.append({"name": "c16::%s::pattern" % mod, "group": "main", "tier": "thorough", "bounds": "%s: all 2^14 bias patterns decode and re-encode to themselves" % num})
-        hs.append({"name": "c16::%s::most_satellites" % mod, "group": "wide", "tier": "quick" if num == "1059" else "thorough", "bounds": "%s: one entry on each satellite 0..=max-1: encodes, and all entries (satellite 0 included) come back" % num})
-        hs.append({"name": "c16::%s::all_satellites" % mod, "group": "wide", "tier": "quick" if num == "1059" else "thorough", "bounds": "%s: one entry on every satellite id of the range (count-field boundary): Err or all entries come back" % num})
+        hs.append({"name": "c16::%s::most_satellites" % mod, "group": "wide", "tier": "thorough", "bounds": "%s: one entry on each satellite 0..=max-1: encodes, and all entries (satellite 0 included) come back" % num})
+        hs.append({"name": "c16::%s::all_satellites" % mod, "group": "wide", "tier": "thorough", "bounds": "%s: one entry on every satellite id of the range (count-field boundary): Err or all entries come back" % num})
         sig_id = T.ssr[num][0][0]
         nsat = 13
         tb, mb = capacity_payload(sb, nsat, 31, sig_id)
@@ -64,7 +64,7 @@ pub fn capacity_%(num)s() {
     }
 }
 """ % {"num": num, "n": n, "tb": ", ".join(map(str, tb)), "mb": ", ".join(map(str, mb)), "nsat": nsat, "tot": nsat * 31, "unw": n + 2})
-        hs.append({"name": "c16::capacity_%s" % num, "group": "cap", "tier": "quick" if num == "1059" else "thorough",
+        hs.append({"name": "c16::capacity_%s" % num, "group": "cap", "tier": "thorough",
                    "bounds": "%s decode of a %d-byte payload announcing %d entries (capacity 390), bias bits symbolic: no panic, never more than 390 entries" % (num, n, nsat * 31)})
     for g in ("g1059_737", "g1059_377", "g1059_773", "g1059_555", "g1059_desc", "g1059_adj", "g1065_737", "g1065_377", "g1065_desc", "g1065_555"):
         hs.append({"name": "c16::%s" % g, "group": "main", "tier": "thorough",
